@@ -30,6 +30,8 @@ DRIVER = "drv_c01"
 GEN = ["extract", "beacon"]
 STREAMS = {
     "ext": {"relevant": True, "desc": "BeaconConfig.from_bytes / from_file / from_path: xorkey, xorencoded, config_block, settings_tuple or exception"},
+    "extpi": {"relevant": False, "desc": "all-keys mode with candidates under several residual keys: the winner depends on the exact "
+                                         "residual key order (4-gram counter), which the property text leaves open"},
     "spec": {"relevant": True, "desc": "the same call compared with the declarative specification extractSpec (right-hand side of extract_first)"},
     "blocks": {"relevant": False, "desc": "iter_beacon_config_blocks run to completion (found flag, phase order, retry)"},
     "left": {"relevant": False, "desc": "order of the residual keys in all-keys mode (4-gram counter, most_common, stable sort)"},
@@ -375,11 +377,6 @@ def build_case(rng, *, key: bytes, keys, ak: bool, container: str, off: int, tot
     return raw, [(True, view), (False, raw)]
 
 
-def accidental(views, keys, ak):
-    """True when a raw view of a stage accidentally contains a header under a tried key (the builder makes no claim then)"""
-    return False
-
-
 # --------------------------------------------------------------------------------------------------
 # generators
 # --------------------------------------------------------------------------------------------------
@@ -404,7 +401,11 @@ def gen(tier, rng, shard, nshards):
         return (k % nshards) == shard
 
     def emit(kind, B, ak, keys, data, views, op="ext"):
-        return op, ext_line(kind, B, ak, keys, data, expected(views, keys, ak), op)
+        exp = expected(views, keys, ak)
+        # several residual keys have a candidate: which one wins depends on the byte-frequency order, which the property text
+        # does not fix -> correspondence-only stream (the oracle still demands one of the admissible answers)
+        stream = "extpi" if (op == "ext" and "|" in exp) else op
+        return stream, ext_line(kind, B, ak, keys, data, exp, op)
 
     def entry():
         r = rng.random()
@@ -714,7 +715,7 @@ class _SpyList(list):
 
 def impl(stream, line):
     w = line.split(" ")
-    if stream in ("ext", "spec"):
+    if stream in ("ext", "extpi", "spec"):
         kind, B, ak, keys, data = w[1], int(w[2]), w[3] == "T", parse_keys(w[4]), C.unhx(w[5])
         with _Buf(B):
             if kind == "b":
@@ -786,7 +787,7 @@ def impl(stream, line):
 # --------------------------------------------------------------------------------------------------
 
 def oracle(stream, line, out):
-    if stream not in ("ext", "spec"):
+    if stream not in ("ext", "extpi", "spec"):
         return None
     alts = dec_expect(line.split(" ")[6])
     if alts is None:
@@ -795,7 +796,7 @@ def oracle(stream, line, out):
 
 
 def nontrivial(stream, line, out):
-    if stream in ("ext", "spec"):
+    if stream in ("ext", "extpi", "spec"):
         if not out.startswith("ok "):
             return False
         w = line.split(" ")
@@ -807,7 +808,7 @@ def nontrivial(stream, line, out):
 
 
 def shrink(stream, line):
-    if stream in ("ext", "spec"):
+    if stream in ("ext", "extpi", "spec"):
         # keep the expectation token out of the shrinking (it is the builder's claim for the original payload)
         w = line.split(" ")
         base = " ".join(w[:6])
